@@ -48,7 +48,9 @@ package crl
 //@   requires client != nil
 //@   calls Client.Do
 //@   maypanic
+//@   calls x509.ParseRevocationList
 //@   ensures [ok] err == nil ==> result != nil && fresh(result) && ListShape(result) && IsPlainHTTP(crlURL) && ncalls(Client.Do) == old(ncalls(Client.Do)) + 1
+//@   ensures [ok=>status-size-parse] err == nil ==> called(Client.Do) && lastret(Client.Do, 0).StatusCode == 200 && called(x509.ParseRevocationList) && lastret(x509.ParseRevocationList, 0) == result && len(lastarg(x509.ParseRevocationList, 0)) < maxCRLSize
 //@   ensures [err] err != nil ==> result == nil && !IsNotFound(err)
 //@   ensures [not-http=>no-request] !IsPlainHTTP(crlURL) ==> err != nil && ncalls(Client.Do) == old(ncalls(Client.Do))
 //@   ensures [one-exchange] ncalls(Client.Do) <= old(ncalls(Client.Do)) + 1
@@ -67,7 +69,7 @@ package crl
 // obtained or parsed yields an error": "not found" is reported only when no download was attempted
 //@ func (*HTTPFetcher).fetchDeltaCRL(f, ctx, extensions)
 //@   requires f != nil && f.httpClient != nil
-//@   calls Client.Do
+//@   calls Client.Do, x509.ParseRevocationList
 //@   maypanic
 //@   ensures [not-advertised] x509util.FindExtensionByOID$(extensions, oidFreshestCRL) == nil ==> result == nil && err == errDeltaCRLNotFound && ncalls(Client.Do) == old(ncalls(Client.Do))
 //@   ensures [ok] err == nil ==> result != nil && fresh(result) && ListShape(result) && x509util.FindExtensionByOID$(extensions, oidFreshestCRL) != nil && ncalls(Client.Do) >= old(ncalls(Client.Do)) + 1
@@ -79,8 +81,9 @@ package crl
 //@     invariant it > 0 ==> lastError != nil && !IsNotFound(lastError)
 
 //@ func (*HTTPFetcher).fetch(f, ctx, url)
+//@   logged
 //@   requires f != nil && f.httpClient != nil
-//@   calls Client.Do
+//@   calls Client.Do, x509.ParseRevocationList
 //@   maypanic
 //@   ensures [ok] err == nil ==> result != nil && fresh(result) && BundleShape(result) && IsPlainHTTP(url) && ncalls(Client.Do) >= old(ncalls(Client.Do)) + 1
 //@   ensures [delta=>advertised] (err == nil && result.DeltaCRL != nil) ==> AdvertisesDelta(result.BaseCRL)
@@ -91,12 +94,14 @@ package crl
 //@ func (*HTTPFetcher).Fetch(f, ctx, url)
 //@   props C18 C06
 //@   requires f != nil && f.httpClient != nil
-//@   calls Client.Do, Cache.Get, Cache.Set
+//@   calls Client.Do, Cache.Get, Cache.Set, HTTPFetcher.fetch, x509.ParseRevocationList
 //@   maypanic
 //@   ensures [refines-Fetcher] err == nil ==> result != nil && BundleShape(result)
 //@   ensures [err] err != nil ==> result == nil
 //@   ensures [cached=>effective] (err == nil && !fresh(result)) ==> f.Cache != nil && called(Cache.Get) && lastret(Cache.Get, 0) == result && lastret(Cache.Get, 1) == nil && Effective(result.BaseCRL) && (result.DeltaCRL == nil || Effective(result.DeltaCRL)) && ncalls(Client.Do) == old(ncalls(Client.Do)) && ncalls(Cache.Set) == old(ncalls(Cache.Set))
 //@   ensures [fresh=>downloaded-and-stored] (err == nil && fresh(result)) ==> IsPlainHTTP(url) && ncalls(Client.Do) >= old(ncalls(Client.Do)) + 1 && (result.DeltaCRL != nil ==> AdvertisesDelta(result.BaseCRL)) && (f.Cache != nil ==> called(Cache.Set) && lastarg(Cache.Set, 2) == url && lastarg(Cache.Set, 3) == result && ncalls(Cache.Set) == old(ncalls(Cache.Set)) + 1 && (lastret(Cache.Set, 0) == nil || f.DiscardCacheError))
 //@   ensures [cache-read-failure] (f.Cache != nil && url != "" && called(Cache.Get) && lastret(Cache.Get, 1) != nil && !IsMiss(lastret(Cache.Get, 1)) && !f.DiscardCacheError) ==> err != nil && ncalls(Client.Do) == old(ncalls(Client.Do))
-//@   ensures [miss-is-not-an-error] (err != nil && called(Cache.Get) && lastret(Cache.Get, 1) != nil && IsMiss(lastret(Cache.Get, 1))) ==> ncalls(Client.Do) >= old(ncalls(Client.Do)) || !IsPlainHTTP(url)
+//@   ensures [miss-is-not-an-error] (called(Cache.Get) && lastret(Cache.Get, 1) != nil && IsMiss(lastret(Cache.Get, 1))) ==> called(HTTPFetcher.fetch) && lastarg(HTTPFetcher.fetch, 2) == url
+//@   ensures [discarded-read-error-is-not-an-error] (called(Cache.Get) && lastret(Cache.Get, 1) != nil && f.DiscardCacheError) ==> called(HTTPFetcher.fetch)
+//@   ensures [stale=>download] (called(Cache.Get) && lastret(Cache.Get, 1) == nil && !(Effective(lastret(Cache.Get, 0).BaseCRL) && (lastret(Cache.Get, 0).DeltaCRL == nil || Effective(lastret(Cache.Get, 0).DeltaCRL)))) ==> called(HTTPFetcher.fetch)
 //@   ensures [empty-url] url == "" ==> err != nil && ncalls(Client.Do) == old(ncalls(Client.Do)) && ncalls(Cache.Get) == old(ncalls(Cache.Get))
